@@ -110,8 +110,74 @@ def isolation_report(ck, ctx):
     ck.extra["isolation_report_only"] = "%d Progress methods take the display lock with lock().unwrap(): a render-thread panic poisons the mutex and aborts the build; hence the guards are load-bearing" % n
 
 
+def width(ck, ctx):
+    """structural part of `cut to at most the terminal width`"""
+    F = ctx.F
+    b = ck.need("fn progress_fancy::task_message", F.body("progress_fancy::task_message"))
+    cfg = ctx.cfg(b)
+    R = ctx.res(b)
+    ck.functions.add(b.nname)
+    tr = Q.sites_in(b, "progress_fancy::truncate")
+    cut = [(bb, t) for bb, t in b.calls() if callee_of(t) == "std::string::String::truncate"]
+    ck.floor("truncate call in task_message", len(tr), 1)
+
+    def pred_long(e):
+        e = strip(e)
+        if e[0] == "bin" and e[1] == "Ge" and strip(e[3])[0] == "param" and strip(e[3])[2] == "max_cols":
+            l = strip(e[2])
+            return l[0] == "bin" and l[1] == "Add" and all(strip(x)[0] == "call" and strip(x)[1].endswith("String::len") for x in (l[2], l[3]))
+        return False
+
+    g = C.bool_gate_edges(ctx, b, pred_long)
+    ck.ob("width", "task_message|cut-when-too-long", len(g) == 1 and all(Q.gated(cfg, bb, g)[0] for bb, _ in tr + cut), "the message is cut exactly when message.len() + note.len() >= max_cols (so an uncut line is shorter than the terminal)", span=b.loc, fn=b.nname)
+    # on that edge the cut is unavoidable
+    starts = [tt for (x, lab) in g for tt in cfg.edge_targets(x, lab)]
+    r = cfg.reach_avoid(starts, avoid_blocks=[bb for bb, _ in cut])
+    ck.ob("width", "task_message|cut-unavoidable", bool(cut) and not (set(cfg.returns()) & r), "once too long, every path to the result cuts the message", span=b.loc, fn=b.nname)
+    for bb, t in tr:
+        m = strip(R.arg(bb, 1))
+        ok = False
+        ell = None
+        if m[0] == "call" and m[1].endswith("saturating_sub"):
+            a, c_ = strip(m[2][0]), strip(m[2][1])
+            if a[0] == "param" and a[2] == "max_cols" and c_[0] == "bin" and c_[1] == "Add" and c_[3][0] == "const" and strip(c_[2])[0] == "call" and strip(c_[2])[1].endswith("String::len"):
+                ell = c_[3][1]
+                ok = True
+        # the ellipsis pushed afterwards has exactly that many bytes
+        lits = [strip(R.arg(x, 1))[1].strip('"') for x, tt in b.calls() if callee_of(tt).endswith("String::push_str") and strip(R.arg(x, 1))[0] == "str"]
+        ok = ok and lits == ["..."] and ell == len("...")
+        ck.ob("width", "task_message|budget", ok, "the message keeps at most max_cols - (note.len() + %s) bytes (saturating) and the ellipsis pushed has %s bytes" % (ell, [len(x) for x in lits]), span=t["loc"], fn=b.nname)
+    # last output line: two-space indent and max_cols - 2
+    pb = ck.need("fn progress_fancy::FancyState::print_progress", F.body("progress_fancy::FancyState::print_progress"))
+    PR = ctx.res(pb)
+    for bb, t in Q.sites_in(pb, "progress_fancy::truncate"):
+        m = strip(PR.arg(bb, 1))
+        ok = m[0] == "bin" and m[1] == "Sub" and m[3] == ("const", 2) and any(c[1].endswith("get_cols") for c in calls_in(m[2]))
+        strs = Q.body_strings(F, pb)
+        ind = any(s_.startswith('b"\x02  ') or s_.startswith('b"  ') or "  \\xc0" in s_ or '"  ' in s_[:6] for s_ in strs)
+        ck.ob("width", "print_progress|last-line-budget", ok, "the last output line is cut to max_cols - 2 (it is printed after a two-space indent)", span=t["loc"], fn=pb.nname)
+    # truncate only ever lowers its bound
+    tb = ck.need("fn progress_fancy::truncate", F.body("progress_fancy::truncate"))
+    TR = ctx.res(tb)
+    tcfg = ctx.cfg(tb)
+    mx = [l for l, nm in tb.names.items() if nm == "max"]
+    okm = False
+    if mx:
+        defs = [(bi, s_) for bi in tcfg.reach for s_ in tb.blocks[bi]["stmts"] if s_["k"] == "assign" and not s_["place"]["p"] and s_["place"]["l"] == mx[0]]
+        okm = all(strip(TR.stmt_rvalue(bi, s_))[0] == "bin" and strip(TR.stmt_rvalue(bi, s_))[1] == "Sub" and strip(TR.stmt_rvalue(bi, s_))[3] == ("const", 1) for bi, s_ in defs)
+    ck.ob("width", "truncate|bound-only-decreases", okm, "truncate() only ever decrements its bound before cutting (result length <= max)", span=tb.loc, fn=tb.nname)
+    # returns s unchanged only when max >= s.len()
+    def pred_fit(e):
+        e = strip(e)
+        return e[0] == "bin" and e[1] == "Ge" and strip(e[2])[0] == "param" and strip(e[3])[0] == "call" and strip(e[3])[1].endswith("str::len")
+    gf = C.bool_gate_edges(ctx, tb, pred_fit)
+    whole = [bb for bb, s_ in Q.ret_assignments(tb) if "rv" in s_ and s_["rv"]["k"] == "use" and strip(TR.stmt_rvalue(bb, s_))[0] == "param"]
+    ck.ob("width", "truncate|whole-only-if-fits", bool(gf) and bool(whole) and all(Q.gated(tcfg, x, gf)[0] for x in whole), "truncate() returns the whole string only when max >= s.len()", span=tb.loc, fn=tb.nname)
+
+
 def run(ck, ctx):
     F = ctx.F
+    width(ck, ctx)
     n = G.str_cuts(ck, ctx, "char-boundary")
     ck.floor("str cut sites", n, 2)
     lb = cols_contract(ck, ctx)
